@@ -194,7 +194,12 @@ pub fn gen_cfg(id: &str, tier: Tier, variant: u64) -> GenCfg {
         }
         // objects also stop existing through try_unwrap / make_mut: a quarter of
         // the C08 workers include the handle-consuming ops
-        "C04" | "C06" | "C08" if variant % 4 == 3 => {
+        "C02" if variant % 4 == 1 => {
+            let mut g = GenCfg::new(Mode::Consume, ops);
+            g.weights.consume = 2;
+            g
+        }
+        "C01" | "C04" | "C05" | "C06" | "C08" if variant % 4 == 3 => {
             let mut g = GenCfg::new(Mode::Consume, ops);
             g.weights.consume = 2;
             g
